@@ -1439,7 +1439,11 @@ class TermCanvas(Canvas):
             yield from self.term
         else:
             buf = [*self.scrollback_buffer, *self.term]
-            yield from buf[-(self.height + self.scrolling_up) : -self.scrolling_up]
+            for line in buf[-(self.height + self.scrolling_up) : -self.scrolling_up]:
+                # lines in the scrollback keep the width the terminal had when they left the screen
+                if (padding := self.width - len(line)) > 0:
+                    line = line + [self.empty_char()] * padding  # noqa: PLW2901
+                yield line[: self.width]
 
     def content_delta(self, other: Canvas):
         if other is self:
